@@ -96,6 +96,13 @@ func (e *Explorer) explore(prefix []int, used int) {
 
 // Replay runs one schedule twice and reports whether both runs observed the same events and verdict.
 func Replay(choices []int, body func(), opt Options) (*Exec, bool) {
+	// warm-up: accesses to variables that turn out to be shared become scheduling points; run until that set is stable so
+	// that both compared runs see the same choice points
+	for i := 0; i < 10; i++ {
+		if w := Run(choices, body, opt); !w.NewVars {
+			break
+		}
+	}
 	a := Run(choices, body, opt)
 	b := Run(choices, body, opt)
 	same := a.Verdict == b.Verdict && len(a.Events) == len(b.Events) && len(a.Choices) == len(b.Choices)
